@@ -2,6 +2,7 @@ package c09
 
 import (
 	"fmt"
+	"math"
 	"reflect"
 	"sort"
 	"strings"
@@ -28,6 +29,9 @@ type Plan struct {
 	P    *Pair
 	Recv Arg
 	Args []Arg
+	// Special: operands (or container elements) were replaced by -Inf, +Inf,
+	// NaN or -0 (monitors special / special.random)
+	Special bool
 }
 
 func (pl Plan) witness() map[string]any {
@@ -689,6 +693,9 @@ func kindOf(pl Plan, f *Finding) string {
 // signature of a finding; for scalar receivers the prior receiver state is
 // part of the class only if the divergence disappears with a zero receiver.
 func signature(pl Plan, f *Finding) string {
+	if pl.Special {
+		return fmt.Sprintf("C09|pair|%s.%s/%s|%s|%s", pl.P.E.Name, pl.P.Generic, pl.P.Concrete, specialClass(pl), kindOf(pl, f))
+	}
 	if al := pl.aliasLabel(); al != "" {
 		// the alias pattern is the input class of an aliased invocation
 		return fmt.Sprintf("C09|pair|%s.%s/%s|alias:%s|%s", pl.P.E.Name, pl.P.Generic, pl.P.Concrete, al, kindOf(pl, f))
@@ -819,6 +826,169 @@ func transposeSpec(m gen.MatrixSpec) ([]gen.Jet, []bool) {
 	return v, s
 }
 
+/* non-finite operands and negative zero
+ * -------------------------------------------------------------------------- */
+
+var specials = []float64{math.Inf(-1), math.Inf(1), math.NaN(), math.Copysign(0, -1)}
+
+func isSpecial(v float64) bool {
+	return math.IsNaN(v) || math.IsInf(v, 0) || (v == 0 && math.Signbit(v))
+}
+
+// specialClass: scalar receivers — the exact label of every scalar operand
+// (and of a special receiver); containers — the set of special values present
+// among operands and receiver, plus the labels of special scalar operands.
+func specialClass(pl Plan) string {
+	var parts []string
+	if pl.P.E.Kind == KScalar {
+		if isSpecial(pl.Recv.J.V) {
+			parts = append(parts, "r"+sign(pl.Recv.J.V))
+		}
+		letter := 'a'
+		for _, a := range pl.Args {
+			if a.Kind == "int" || a.Kind == "float" {
+				continue
+			}
+			if a.Kind == "scalar" {
+				parts = append(parts, string(letter)+sign(a.J.V))
+			}
+			letter++
+		}
+		return "nonfinite:" + strings.Join(parts, ",")
+	}
+	present := map[string]bool{}
+	note := func(js []gen.Jet) {
+		for _, j := range js {
+			if isSpecial(j.V) {
+				present[sign(j.V)] = true
+			}
+		}
+	}
+	note(pl.Recv.V.Vals)
+	note(pl.Recv.M.Vals)
+	letter := 'a'
+	for _, a := range pl.Args {
+		if a.Kind == "int" || a.Kind == "float" {
+			continue
+		}
+		switch a.Kind {
+		case "scalar":
+			if isSpecial(a.J.V) {
+				parts = append(parts, string(letter)+sign(a.J.V))
+			}
+		case "vector":
+			note(a.V.Vals)
+		case "matrix":
+			note(a.M.Vals)
+		}
+		letter++
+	}
+	var el []string
+	for _, k := range []string{"-Inf", "+Inf", "NaN", "-0"} {
+		if present[k] {
+			el = append(el, k)
+		}
+	}
+	if len(el) > 0 {
+		parts = append(parts, "elements:"+strings.Join(el, "/"))
+	}
+	return "nonfinite:" + strings.Join(parts, ",")
+}
+
+// scalarParams: indices (into Args) of the scalar operands.
+func scalarParams(pl Plan) []int {
+	var r []int
+	for i, a := range pl.Args {
+		if a.Kind == "scalar" {
+			r = append(r, i)
+		}
+	}
+	return r
+}
+
+// makeSpecialPlan: a random plan with special values.  For scalar receivers
+// combo assigns to every scalar operand an index into specials (or -1 =
+// finite); for containers (combo nil) elements and scalar operands are
+// replaced at random, at least one of them.
+func makeSpecialPlan(p *Pair, r *prng.Rand, combo []int) Plan {
+	pl := makePlan(p, r, -1)
+	pl.Special = true
+	if p.E.Kind == KScalar {
+		for q, i := range scalarParams(pl) {
+			if q < len(combo) && combo[q] >= 0 {
+				pl.Args[i].J.V = specials[combo[q]]
+			}
+		}
+		if r.Chance(0.2) {
+			pl.Recv.J.V = specials[r.Intn(len(specials))]
+		}
+		return pl
+	}
+	n := 0
+	sprinkle := func(js []gen.Jet, prob float64) {
+		for i := range js {
+			if r.Chance(prob) {
+				js[i].V = specials[r.Intn(3)] // -0 cannot be stored through the element builders: scalars only
+				n++
+			}
+		}
+	}
+	for try := 0; try < 8 && n == 0; try++ {
+		for i := range pl.Args {
+			a := &pl.Args[i]
+			switch a.Kind {
+			case "scalar":
+				if r.Chance(0.5) {
+					a.J.V = specials[r.Intn(len(specials))]
+					n++
+				}
+			case "vector":
+				a.V.Vals = append([]gen.Jet(nil), a.V.Vals...)
+				sprinkle(a.V.Vals, 0.25)
+			case "matrix":
+				a.M.Vals = append([]gen.Jet(nil), a.M.Vals...)
+				sprinkle(a.M.Vals, 0.2)
+			}
+		}
+		if r.Chance(0.3) {
+			switch pl.Recv.Kind {
+			case "vector":
+				pl.Recv.V.Vals = append([]gen.Jet(nil), pl.Recv.V.Vals...)
+				sprinkle(pl.Recv.V.Vals, 0.25)
+			case "matrix":
+				pl.Recv.M.Vals = append([]gen.Jet(nil), pl.Recv.M.Vals...)
+				sprinkle(pl.Recv.M.Vals, 0.2)
+			}
+		}
+	}
+	return pl
+}
+
+// specialCombos: every assignment of {finite, -Inf, +Inf, NaN, -0} to k scalar
+// operands with at least one special value.
+func specialCombos(k int) [][]int {
+	res := [][]int{{}}
+	for i := 0; i < k; i++ {
+		var next [][]int
+		for _, c := range res {
+			for v := -1; v < len(specials); v++ {
+				next = append(next, append(append([]int(nil), c...), v))
+			}
+		}
+		res = next
+	}
+	var out [][]int
+	for _, c := range res {
+		for _, v := range c {
+			if v >= 0 {
+				out = append(out, c)
+				break
+			}
+		}
+	}
+	return out
+}
+
 /* monitors
  * -------------------------------------------------------------------------- */
 
@@ -898,6 +1068,9 @@ func exercise(cs *fw.Case, pl Plan, seen map[string]int) bool {
 		}
 		cs.Cover("both-panic:" + p.E.Kind)
 		return false
+	}
+	if pl.Special {
+		cs.Cover("special-judged:" + p.E.Kind + "/" + p.E.Storage)
 	}
 	if al := pl.aliasLabel(); al != "" {
 		cs.Cover("alias-judged:" + p.E.Kind + "/" + p.E.Storage)
@@ -1078,6 +1251,77 @@ func Run(c *fw.Ctx) {
 		pl := makeAliasPlan(ac.p, cs.R, ac.combo)
 		if exercise(cs, pl, map[string]int{}) && !allZeroInputs(pl) {
 			cs.Nontrivial(ac.p.Key(), pl.aliasLabel(), pl.Recv.String(), fmt.Sprint(pl.Args))
+		}
+	})
+
+	// non-finite operands (-Inf, +Inf, NaN) and -0: the float-like element types
+	// (the integer types have no such values).  Scalar pairs: every assignment
+	// of {finite, -Inf, +Inf, NaN, -0} to the scalar operands with at least one
+	// special value; container pairs: special elements / scalar operands at
+	// random.  One case per pair.
+	var sp []*Pair
+	for _, p := range exec {
+		if !p.E.Elem.IsInt {
+			sp = append(sp, p)
+		}
+	}
+	c.CoverMax("max:special-pairs", int64(len(sp)))
+	spReps := c.N(3, 30)
+	spSets := c.N(80, 800)
+	c.Cases("special", len(sp), func(cs *fw.Case) {
+		p := sp[cs.Index]
+		cs.C.Cover("set:special-pair:"+p.Key(), 1)
+		seen := map[string]int{}
+		var first *Plan
+		run1 := func(pl Plan) {
+			if exercise(cs, pl, seen) && first == nil {
+				q := pl
+				first = &q
+			}
+		}
+		if p.E.Kind == KScalar {
+			k := 0
+			for i := 1; i < p.C.Type.NumIn(); i++ {
+				if kd, _ := paramKind(p.C.Type.In(i)); kd == "scalar" {
+					k++
+				}
+			}
+			if k == 0 { // Sign/SIGN: the receiver only
+				for rep := 0; rep < 5*spReps; rep++ {
+					pl := makeSpecialPlan(p, cs.R, nil)
+					pl.Recv.J.V = specials[rep%len(specials)]
+					run1(pl)
+				}
+			}
+			for _, cb := range specialCombos(k) {
+				for rep := 0; rep < spReps; rep++ {
+					run1(makeSpecialPlan(p, cs.R, cb))
+				}
+			}
+		} else {
+			for s := 0; s < spSets; s++ {
+				run1(makeSpecialPlan(p, cs.R, nil))
+			}
+		}
+		if first != nil {
+			cs.Nontrivial(p.Key(), "special", first.Recv.String(), fmt.Sprint(first.Args))
+			cs.Sample(first.witness())
+		}
+	})
+	c.Cases("special.random", c.N(60000, 1500000), func(cs *fw.Case) {
+		if len(sp) == 0 {
+			return
+		}
+		p := sp[cs.R.Intn(len(sp))]
+		var cb []int
+		if p.E.Kind == KScalar {
+			for i := 0; i < 3; i++ {
+				cb = append(cb, cs.R.Intn(len(specials)+1)-1)
+			}
+		}
+		pl := makeSpecialPlan(p, cs.R, cb)
+		if exercise(cs, pl, map[string]int{}) {
+			cs.Nontrivial(p.Key(), "special", pl.Recv.String(), fmt.Sprint(pl.Args))
 		}
 	})
 
